@@ -276,21 +276,32 @@ def run_group(group):
                          edges_ep0={k: a["seq_in"][0][:8].tolist() for k, a in p0["edges"].items()})
     if group.get("aug"):
         plan = group["aug"]
-        for case in aug_cases(spec, plan):
+        for ci, case in enumerate(aug_cases(spec, plan)):
+            if ci % 8 == 7:
+                _release()
             fd, ncalls = run_aug_case(spec, nodes, group, case, _cache=out.setdefault("_cache", {}))
             _emit(out, group, fd, case, ncalls=ncalls)
             out["aug_cases"] += 1
             if len(case["present"]) == len(names) and len(case["kept"]) == len(spec["edges"]):
                 out["identity_aug"] += 1
         out.pop("_cache", None)
-    # every call of generate_graphs leaves compiled closures behind; bound the memory of a long-lived worker
-    _STATE["groups_done"] = _STATE.get("groups_done", 0) + 1
-    if _STATE["groups_done"] % 20 == 0:
-        import gc
-
-        _setup()["jax"].clear_caches()
-        gc.collect()
+    _release()
     return out
+
+
+def _release():
+    """Every call of generate_graphs leaves ~20 MB of compiled closures behind; bound the memory of a long-lived worker."""
+    import gc
+
+    _setup()["jax"].clear_caches()
+    gc.collect()
+
+
+def worker_init(env):
+    os.environ.update(env)
+    from vf.common import setup_env
+
+    setup_env()
 
 
 def aug_cases(spec, plan):
